@@ -79,6 +79,10 @@ def run_python(d):
     kw = {"PS": d["ps_vals"][0]} if d.get("reread") else {}
     mod = sol.solve(**kw)
     exc = {n: complex(*v) for n, v in d["exc"].items()}
+    if len(d["comps"]) % 2 == 0:
+        # the same result has been asked before about the same pins with OTHER amplitudes (and in the other mode)
+        mod.get_monitor({n: (0.5 + 0.25j) * v + 0.125 for n, v in exc.items()}, power=not d["power"])
+        mod.get_monitor({n: (0.5 + 0.25j) * v + 0.125 for n, v in exc.items()}, power=d["power"])
     tab = mod.get_monitor(dict(exc), power=d["power"])
     if d.get("reread"):
         # later solves with another parameter value (and another monitor read-out) must not change
